@@ -1,3 +1,4 @@
+import Std.Data.HashMap
 import ArroyModel.Tree
 /-! `Writer::build`, function by function and in the order of its effects (`src/writer.rs`).
 The cancellation callback is a poll counter; the non-deterministic choices of the real build
@@ -82,6 +83,77 @@ def sideOf (c : Cfg) (s : Store) (normal : List Nat) (x : Nat) : Option (Option 
 
 def treeCtx (c : Cfg) (o : BuildOpts) (s : Store) : TreeCtx :=
   { cap := cap c o, side := sideOf c s, isZero := c.metric.isZero }
+
+/-! ### compiled-code accelerator (see `SoftFloat.lean`): the context of the tree routines looks every item up in the
+store, a linear scan per lookup. The copy below indexes the item keys of the index once; the `@[csimp]` THEOREM
+`treeCtx_eq_fast` (kernel-checked, for every store, duplicate keys included) lets the compiler use it. -/
+
+/-- item id ↦ the value under the FIRST key `(index, item kind, id)` of the store -/
+def itemIndex (c : Cfg) (s : Store) : Std.HashMap Nat Val :=
+  s.foldr (fun kv m => if kv.1.index = c.index ∧ kv.1.mode = Generated.modeItem then m.insert kv.1.item kv.2 else m) {}
+
+theorem itemIndex_get (c : Cfg) (s : Store) (x : Nat) : (itemIndex c s)[x]? = Store.get s (c.itemKey x) := by
+  induction s with
+  | nil => simp [itemIndex, Store.get]
+  | cons kv rest ih =>
+    obtain ⟨k, v⟩ := kv
+    have hfold : itemIndex c ((k, v) :: rest) =
+        (if k.index = c.index ∧ k.mode = Generated.modeItem then (itemIndex c rest).insert k.item v else itemIndex c rest) := rfl
+    rw [hfold]
+    by_cases hk : k = c.itemKey x
+    · subst hk
+      simp [Store.get, Cfg.itemKey, Key.mkItem]
+    · have hget : Store.get ((k, v) :: rest) (c.itemKey x) = Store.get rest (c.itemKey x) := by
+        simp [Store.get, hk]
+      rw [hget, ← ih]
+      by_cases hm : k.index = c.index ∧ k.mode = Generated.modeItem
+      · rw [if_pos hm, Std.HashMap.getElem?_insert]
+        have hne : (k.item == x) = false := by
+          apply beq_false_of_ne
+          intro hx
+          apply hk
+          cases k
+          simp_all [Cfg.itemKey, Key.mkItem]
+        simp [hne]
+      · rw [if_neg hm]
+
+def itemLeafFast (m : Std.HashMap Nat Val) (x : Nat) : Option (List Nat × List Nat) :=
+  match m[x]? with
+  | some (.leaf h v) => some (h, v)
+  | _ => none
+
+theorem itemLeafFast_eq (c : Cfg) (s : Store) (x : Nat) : itemLeafFast (itemIndex c s) x = Writer.itemLeaf c s x := by
+  unfold itemLeafFast Writer.itemLeaf
+  rw [itemIndex_get]
+  cases Store.get s (c.itemKey x) with
+  | none => rfl
+  | some v => cases v <;> rfl
+
+/-- `sideOf`, given the leaf -/
+def sideOfLeaf (c : Cfg) (leaf : Option (List Nat × List Nat)) (normal : List Nat) : Option (Option Bool) :=
+  match leaf with
+  | none => none
+  | some (_, v) =>
+    let mg := c.metric.margin c.host v normal
+    some (if F32.gt mg F32.zero then some true else if F32.lt mg F32.zero then some false else none)
+
+theorem sideOf_eq_leaf (c : Cfg) (s : Store) (normal : List Nat) (x : Nat) :
+    sideOf c s normal x = sideOfLeaf c (Writer.itemLeaf c s x) normal := by
+  unfold sideOf sideOfLeaf
+  cases Writer.itemLeaf c s x with
+  | none => rfl
+  | some p => cases p; rfl
+
+def treeCtxFast (c : Cfg) (o : BuildOpts) (s : Store) : TreeCtx :=
+  let m := itemIndex c s
+  { cap := cap c o, side := fun normal x => sideOfLeaf c (itemLeafFast m x) normal, isZero := c.metric.isZero }
+
+@[csimp] theorem treeCtx_eq_fast : @treeCtx = @treeCtxFast := by
+  funext c o s
+  simp only [treeCtx, treeCtxFast]
+  congr 1
+  funext normal x
+  rw [sideOf_eq_leaf, itemLeafFast_eq]
 
 /-- the `DotProduct` preprocessing: every header gets the maximum norm and the extra dimension -/
 def preprocessDot (c : Cfg) (s : Store) : Store :=
